@@ -62,6 +62,9 @@ var props = map[string]propCfg{
 	"C11": {World: "diode", Level: "exploration", QuickWall: 20, ThoroughSec: 600, Rule: ruleCommon},
 	"C12": {World: "diode", Level: "exploration", QuickWall: 20, ThoroughSec: 600, Rule: ruleCommon},
 	"C05": {World: "c05", Level: "exploration", QuickWall: 25, ThoroughSec: 600, Rule: ruleCommon},
+	"C13": {World: "c13", Level: "exploration", QuickWall: 15, ThoroughSec: 300, Rule: ruleCommon},
+	"C14": {World: "c14", Level: "fault_enumeration", QuickWall: 15, ThoroughSec: 300, Rule: ruleCommon + " Faults: per (destination, event) outcome in {ok, error, short write}, sampled (not enumerated) over 1-4 destinations x 1-6 events x 1-2 tasks."},
+	"C15": {World: "c15", Level: "exploration", QuickWall: 20, ThoroughSec: 600, Rule: ruleCommon},
 	"C06": {World: "c06", Level: "exploration", QuickWall: 25, ThoroughSec: 600, Rule: ruleCommon},
 }
 
@@ -672,6 +675,9 @@ var wantProbes = map[string][]string{
 	"C11": {"cas_failed", "collision_retry", "alert", "sink_slow"},
 	"C12": {"cas_failed", "cond_broadcast_no_waiter", "cond_broadcast_woke", "mutex_contended"},
 	"C05": {"pool_reuse_other_task", "pool_miss", "open_events_overlap", "pool_non_lifo"},
+	"C13": {"linearizable_histories", "clock_backwards", "clock_jump_forward", "clock_frozen", "sampling_disabled_phase", "level_rejected_event"},
+	"C14": {"dst_error", "dst_short_write"},
+	"C15": {"linearizable_histories", "mutex_contended", "pool_reuse", "dst_blocks"},
 	"C06": {"pool_reuse_other_task", "pool_miss", "pool_drop", "sink_overlap", "two_events_open", "sink_blocks_in_write", "sink_error", "global_level_flip", "mutex_contended"},
 }
 
